@@ -35,6 +35,7 @@ def make_metafile(case, root, out):
         kw["extra_info"] = {"x-unknown": [1, "a", {"k": 2}], "source": "elsewhere", "private": 0}
         kw["extra_top"] = {"comment": "top-level comment", "zzz": 2 ** 40, "url-list": "http://w.example/f",
                            "nodes": [["n.example", 6881]], "created by": "other tool"}
+        kw["attrs"] = True          # executable / hidden flags on regular files
     raw = refenc.build(tree["name"], files, P, v, single=bool(tree.get("single")), **kw)
     write_file(out, raw)
     return "ok"
